@@ -157,3 +157,136 @@ def strptime_field_gaps(fmt):
             if missing:
                 return missing[0]
     return None
+
+
+_ALIAS_METHODS = ('view', 'reshape', 'ravel', 'squeeze', 'swapaxes', 'transpose')
+_ARRAY_METHODS = ('astype', 'copy', 'filled', 'ravel', 'reshape', 'view', 'squeeze', 'swapaxes', 'transpose', 'sum', 'cumsum', 'repeat', 'take')
+
+
+def _alias_of(e):
+    """name that the value of e shares storage with (Name, basic slice of a name, .T/.view()/reshape of it) or None"""
+    if isinstance(e, ast.Name):
+        return e.id
+    if isinstance(e, ast.Subscript) and not isinstance(e.slice, (ast.List, ast.ListComp)):
+        return _alias_of(e.value)
+    if isinstance(e, ast.Attribute) and e.attr == 'T':
+        return _alias_of(e.value)
+    if isinstance(e, ast.Call) and isinstance(e.func, ast.Attribute) and e.func.attr in _ALIAS_METHODS:
+        return _alias_of(e.func.value)
+    if isinstance(e, ast.Call) and dotted(e.func) in ('np.asarray', 'np.asanyarray', 'asarray', 'np.atleast_1d'):
+        return _alias_of(e.args[0]) if e.args else None
+    return None
+
+
+def _arraylike(e, arrays):
+    for n in ast.walk(e):
+        if isinstance(n, ast.Attribute) and n.attr == 'variables':
+            return True
+        if isinstance(n, ast.Call) and ((dotted(n.func) or '').startswith('np.') or (isinstance(n.func, ast.Attribute) and n.func.attr in _ARRAY_METHODS)
+                                        or dotted(n.func) in ('array', 'zeros', 'ones', 'arange', 'asarray')):
+            return True
+        if isinstance(n, ast.Name) and n.id in arrays:
+            return True
+    return False
+
+
+def alias_inplace(fn):
+    """`a = b` (or a view of b) followed by an in-place update of a (`a += ..`, `a[..] = ..`) while b, an array, is still read
+    afterwards: the update also changes b.  -> [(aug stmt, alias name, original name, later read stmt)]"""
+    out = []
+    alias = {}     # name -> name it shares storage with
+    arrays = set()
+    stmts = list(iter_stmts(fn.body))
+    for i, st in enumerate(stmts):
+        if isinstance(st, ast.Assign):
+            pairs = []
+            for t in st.targets:
+                if isinstance(t, ast.Tuple) and isinstance(st.value, ast.Tuple) and len(t.elts) == len(st.value.elts):
+                    pairs += list(zip(t.elts, st.value.elts))
+                else:
+                    pairs.append((t, st.value))
+            for t, v in pairs:
+                if isinstance(t, ast.Name):
+                    a = _alias_of(v)
+                    if a is not None and a != t.id:
+                        alias[t.id] = alias.get(a, a)
+                    else:
+                        alias.pop(t.id, None)
+                    if _arraylike(v, arrays):
+                        arrays.add(t.id)
+                    else:
+                        arrays.discard(t.id)
+                elif isinstance(t, ast.Tuple):
+                    for el in t.elts:
+                        if isinstance(el, ast.Name):
+                            alias.pop(el.id, None)
+                            if _arraylike(v, arrays):
+                                arrays.add(el.id)
+        tgt = None
+        if isinstance(st, ast.AugAssign):
+            tgt = st.target
+        elif isinstance(st, ast.Assign) and isinstance(st.targets[0], ast.Subscript):
+            tgt = st.targets[0]
+        if tgt is not None:
+            b = tgt
+            while isinstance(b, ast.Subscript):
+                b = b.value
+            if isinstance(b, ast.Name) and b.id in alias and alias[b.id] in arrays:
+                orig = alias[b.id]
+                later = [s2 for s2 in stmts[i + 1:] if any(isinstance(n, ast.Name) and n.id == orig and isinstance(n.ctx, ast.Load) for n in ast.walk(s2))]
+                # a re-binding of the original before any read ends its life
+                if later:
+                    out.append((st, b.id, orig, later[0]))
+    return out
+
+
+_CLASS_VIEWS = ('np.ndarray', 'ndarray', 'np.recarray', 'recarray', 'np.ma.MaskedArray', 'MaskedArray', 'np.matrix')
+
+
+def reinterpret_input(fn, input_params):
+    """`.view(<dtype>)` applied to data that still has the dtype of the caller's input (no astype / arithmetic on the way): the bytes are
+    reinterpreted, not converted, so the result depends on the input's dtype.  -> [(call, receiver text)]"""
+    raw = set(input_params)
+    out = []
+
+    def is_raw(e):
+        if isinstance(e, ast.Name):
+            return e.id in raw
+        if isinstance(e, ast.Subscript):
+            return is_raw(e.value)
+        if isinstance(e, ast.Attribute):
+            return e.attr in ('variables', 'T') and is_raw(e.value)
+        if isinstance(e, ast.Call) and isinstance(e.func, ast.Attribute) and e.func.attr in _ALIAS_METHODS + ('copy', 'filled', 'values', 'items'):
+            return is_raw(e.func.value)
+        return False
+    for _pass in range(3):
+        for st in iter_stmts(fn.body):
+            if isinstance(st, ast.Assign):
+                for t in st.targets:
+                    if isinstance(t, ast.Name):
+                        (raw.add if is_raw(st.value) else (lambda x: None))(t.id)
+                    elif isinstance(t, ast.Tuple) and is_raw(st.value):
+                        raw.update(el.id for el in t.elts if isinstance(el, ast.Name))
+            if isinstance(st, ast.For) and is_raw(st.iter):
+                for n in ast.walk(st.target):
+                    if isinstance(n, ast.Name):
+                        raw.add(n.id)
+            if isinstance(st, ast.For) and isinstance(st.iter, ast.Call) and dotted(st.iter.func) in ('zip', 'enumerate') and isinstance(st.target, ast.Tuple):
+                args = st.iter.args if dotted(st.iter.func) == 'zip' else [None] + list(st.iter.args[:1])
+                for tg, a in zip(st.target.elts, args):
+                    if a is not None and is_raw(a):
+                        raw.update(n.id for n in ast.walk(tg) if isinstance(n, ast.Name))
+    # a name is raw only if *every* binding of it is raw (a re-binding through astype ends it) - except the self re-binding under test
+    for st in iter_stmts(fn.body):
+        if isinstance(st, ast.Assign) and len(st.targets) == 1 and isinstance(st.targets[0], ast.Name) and st.targets[0].id in raw and not is_raw(st.value):
+            is_view = isinstance(st.value, ast.Call) and isinstance(st.value.func, ast.Attribute) and st.value.func.attr == 'view'
+            if not is_view and st.targets[0].id not in input_params:
+                raw.discard(st.targets[0].id)
+    for n in ast.walk(fn):
+        if isinstance(n, ast.Call) and isinstance(n.func, ast.Attribute) and n.func.attr == 'view' and (n.args or n.keywords):
+            a = n.args[0] if n.args else None
+            if a is None or dotted(a) in _CLASS_VIEWS or any(k.arg == 'type' for k in n.keywords):
+                continue
+            if is_raw(n.func.value):
+                out.append((n, norm(n.func.value)))
+    return out
